@@ -712,17 +712,30 @@ Proof.
   - rewrite app_length. cbn [length]. lia.
 Qed.
 
-Lemma pinv_step : forall st e, pinv st -> ev_ok (fst st) e = true -> pinv (pstep true true st e).
+Lemma steps_ok_spec : forall w s, steps_ok w s = true ->
+  sf_step (w_state w) <= s /\ Forall (fun x => hit x <= s) (w_D w).
 Proof.
-  intros [w om] e [HW HM] Hok. cbn [fst snd] in *. destruct e as [h|c|s|s nn| | |]; cbn [pstep ev_ok] in *.
-  - apply Z.ltb_lt in Hok. split; cbn [fst snd]; [apply WInv_deposit|apply MInv_deposit]; auto.
+  intros w s H. unfold steps_ok in H. apply andb_true_iff in H. destruct H as [H1 H2].
+  apply Z.leb_le in H1. apply forallb_le in H2. auto.
+Qed.
+
+(* the events other than the two halves of a state-file rewrite, from a state whose hills file is fresh *)
+Lemma pinv_step0 : forall st e, pinv st -> ev_ok true (fst st) e = true ->
+  (forall s, e <> PWStateA s) -> e <> PWStateB -> pinv (pstep true true st e).
+Proof.
+  intros [w om] e [HW HM] Hok HA HB. cbn [fst snd] in *.
+  destruct e as [h|c|s|s| |s nn| | |]; cbn [pstep ev_ok] in *.
+  - apply andb_true_iff in Hok. destruct Hok as [_ Hok]. apply Z.ltb_lt in Hok.
+    split; cbn [fst snd]; [apply WInv_deposit|apply MInv_deposit]; auto.
   - split; cbn [fst snd].
     + destruct HW as (HD & HF & Hv). unfold WInv, wr_vis; cbn [w_D w_state w_file w_vis]. repeat split; auto; lia.
     + destruct om as [m|]; [|exact I]. exact HM.
-  - apply andb_true_iff in Hok. destruct Hok as [H1 H2]. apply Z.leb_le in H1. apply forallb_le in H2.
+  - apply andb_true_iff in Hok. destruct Hok as [_ Hok]. destruct (steps_ok_spec _ _ Hok) as [H1 H2].
     split; cbn [fst snd]; [apply (WInv_newstate w s false HW)|].
     destruct om as [m|]; [|exact I]. apply (MInv_newstate w m s false); auto.
-  - apply andb_true_iff in Hok. destruct Hok as [H1 H2]. apply Z.leb_le in H1. apply forallb_le in H2.
+  - exfalso. apply (HA s). reflexivity.
+  - exfalso. apply HB. reflexivity.
+  - apply andb_true_iff in Hok. destruct Hok as [_ Hok]. destruct (steps_ok_spec _ _ Hok) as [H1 H2].
     split; cbn [fst snd]; [apply (WInv_newstate w s nn HW)|].
     destruct om as [m|]; [|exact I]. apply (MInv_newstate w m s nn); auto.
   - split; cbn [fst snd]; auto.
@@ -734,20 +747,120 @@ Proof.
   - split; cbn [fst snd]; auto. exact I.
 Qed.
 
-Lemma pinv_run : forall es st, pinv st -> trace_ok true true es st = true -> pinv (prun true true es st).
+(* between the two halves of a state-file rewrite the invariants are those of the completed rewrite *)
+Definition settle (w : writer) : writer := if file_fresh w then w else wr_state_b w.
+Definition pinv' (st : pstate) : Prop := pinv (settle (fst st), snd st).
+
+Lemma WInv_fresh : forall w, WInv w -> file_fresh w = true.
+Proof.
+  intros w (_ & HF & _). unfold file_fresh. apply forallb_forall. intros h Hh.
+  rewrite Forall_forall in HF. apply Z.ltb_lt. auto.
+Qed.
+
+Lemma fresh_nil : forall w, w_file w = [] -> file_fresh w = true.
+Proof. intros w H. unfold file_fresh. now rewrite H. Qed.
+
+(* a file all of whose records are later than s, while nothing deposited is later than s, is empty *)
+Lemma fresh_after_a : forall w s, WInv w -> Forall (fun x => hit x <= s) (w_D w) ->
+  file_fresh (wr_state_a w s) = true -> w_file w = [].
+Proof.
+  intros w s (HD & _ & _) Hle Hf. unfold file_fresh, wr_state_a in Hf; cbn [w_state w_file sf_step] in Hf.
+  rewrite HD in Hle. apply Forall_app in Hle. destruct Hle as [_ Hle].
+  destruct (w_file w) as [|h tl]; auto. cbn [forallb] in Hf. apply andb_true_iff in Hf. destruct Hf as [Hf _].
+  apply Z.ltb_lt in Hf. inversion Hle; subst. lia.
+Qed.
+
+Lemma writer_eq : forall a b, w_D a = w_D b -> w_reg a = w_reg b -> w_name a = w_name b ->
+  w_state a = w_state b -> w_file a = w_file b -> w_vis a = w_vis b -> a = b.
+Proof. intros [] []; cbn; intros; subst; reflexivity. Qed.
+
+Lemma pinv_settle : forall w om, pinv (w, om) -> pinv (settle w, om).
+Proof.
+  intros w om H. unfold settle. destruct H as [HW HM]. cbn [fst snd] in *. rewrite (WInv_fresh _ HW). split; auto.
+Qed.
+
+Lemma pinv'_step : forall st e, pinv' st -> ev_ok true (fst st) e = true -> pinv' (pstep true true st e).
+Proof.
+  intros [w om] e Hinv Hok. unfold pinv' in *. cbn [fst snd] in *.
+  destruct (file_fresh w) eqn:Hfresh.
+  - (* the hills file is fresh: settle is the identity here *)
+    assert (Hs : settle w = w) by (unfold settle; now rewrite Hfresh). rewrite Hs in Hinv.
+    destruct e as [h|c|s|s| |s nn| | |].
+    + pose proof (pinv_step0 (w, om) (PDeposit h) Hinv Hok) as H. cbn [pstep fst snd] in *.
+      assert (Hp : pinv (wr_deposit w h, om)) by (apply H; intros; discriminate).
+      apply pinv_settle. exact Hp.
+    + pose proof (pinv_step0 (w, om) (PVis c) Hinv Hok) as H. cbn [pstep fst snd] in *.
+      assert (Hp : pinv (wr_vis w c, om)) by (apply H; intros; discriminate).
+      apply pinv_settle. exact Hp.
+    + pose proof (pinv_step0 (w, om) (PWState s) Hinv Hok) as H. cbn [pstep fst snd] in *.
+      assert (Hp : pinv (wr_state w s, om)) by (apply H; intros; discriminate).
+      apply pinv_settle. exact Hp.
+    + (* first half: whatever the file holds, the settled state is that of the whole rewrite *)
+      cbn [pstep fst snd ev_ok] in *. apply andb_true_iff in Hok. destruct Hok as [_ Hok].
+      destruct (steps_ok_spec _ _ Hok) as [H1 H2].
+      assert (Hp : pinv (wr_state w s, om)).
+      { apply (pinv_step0 (w, om) (PWState s) Hinv); try (intros; discriminate).
+        cbn [ev_ok fst]. now rewrite Hfresh, Hok. }
+      assert (E : settle (wr_state_a w s) = wr_state w s).
+      { unfold settle. destruct (file_fresh (wr_state_a w s)) eqn:Ef.
+        - pose proof (fresh_after_a w s (proj1 Hinv) H2 Ef) as Hnil.
+          destruct Hinv as [(HD & HF & Hv) _]. cbn [fst] in *. rewrite Hnil in Hv. cbn [length] in Hv.
+          apply writer_eq; cbn; auto. lia.
+        - apply writer_eq; reflexivity. }
+      rewrite E. exact Hp.
+    + (* second half from a fresh state: allowed only when the file is empty *)
+      cbn [pstep fst snd ev_ok] in *. rewrite Hfresh in Hok. cbn [negb orb] in Hok.
+      destruct (w_file w) as [|h tl] eqn:Hnil; [|discriminate].
+      assert (E : wr_state_b w = w).
+      { destruct Hinv as [(HD & HF & Hv) _]. cbn [fst] in *. rewrite Hnil in Hv. cbn [length] in Hv.
+        apply writer_eq; cbn; auto. lia. }
+      rewrite E, Hs. exact Hinv.
+    + pose proof (pinv_step0 (w, om) (PSetup s nn) Hinv Hok) as H. cbn [pstep fst snd] in *.
+      assert (Hp : pinv (wr_setup w s nn, om)) by (apply H; intros; discriminate).
+      apply pinv_settle. exact Hp.
+    + pose proof (pinv_step0 (w, om) RShare Hinv Hok) as H. cbn [pstep fst snd] in *.
+      rewrite Hs. apply H; intros; discriminate.
+    + pose proof (pinv_step0 (w, om) RWState Hinv Hok) as H. cbn [pstep fst snd] in *.
+      rewrite Hs. apply H; intros; discriminate.
+    + pose proof (pinv_step0 (w, om) RRestart Hinv Hok) as H. cbn [pstep fst snd] in *.
+      rewrite Hs. apply H; intros; discriminate.
+  - (* between the two halves: settle w = wr_state_b w *)
+    assert (Hs : settle w = wr_state_b w) by (unfold settle; now rewrite Hfresh). rewrite Hs in Hinv.
+    assert (Hsb : forall w', w_file w' = w_file w -> w_state w' = w_state w -> w_D w' = w_D w ->
+                  w_reg w' = w_reg w -> w_name w' = w_name w -> settle w' = wr_state_b w).
+    { intros w' Hf Hst HD Hr Hn. unfold settle, file_fresh. rewrite Hf, Hst. fold (file_fresh w). rewrite Hfresh.
+      apply writer_eq; cbn; auto. }
+    destruct e as [h|c|s|s| |s nn| | |]; cbn [pstep fst snd ev_ok] in *; try rewrite Hfresh in Hok;
+      cbn [andb negb orb] in Hok; try discriminate.
+    + rewrite (Hsb (wr_vis w c)); auto.
+    + assert (E : settle (wr_state_b w) = wr_state_b w) by (unfold settle; now rewrite fresh_nil).
+      rewrite E. exact Hinv.
+    + rewrite Hs. destruct Hinv as [HW HM]. split; cbn [fst snd] in *; auto.
+      destruct om as [m|]; [|exact I]. exact HM.
+    + rewrite Hs. destruct Hinv as [HW HM]. split; cbn [fst snd] in *; auto. exact I.
+Qed.
+
+Lemma pinv'_init : pinv' pinit.
+Proof. unfold pinv'. cbn. apply pinv_init. Qed.
+
+Lemma pinv_run : forall es st, pinv' st -> trace_ok true true true es st = true -> pinv' (prun true true es st).
 Proof.
   induction es as [|e tl IH]; intros st H Hok; [exact H|].
   cbn [trace_ok] in Hok. apply andb_true_iff in Hok. destruct Hok as [H1 H2].
-  cbn [prun fold_left]. apply IH; auto. apply pinv_step; auto.
+  cbn [prun fold_left]. apply IH; auto. apply pinv'_step; auto.
 Qed.
 
+Lemma settle_D : forall w, w_D (settle w) = w_D w.
+Proof. intros w. unfold settle. destruct (file_fresh w); reflexivity. Qed.
+
 (* at any moment of any trace: what the reader holds for the peer is a prefix of what the peer deposited *)
-Theorem meta_prefix_always : forall es w m, trace_ok true true es pinit = true ->
+Theorem meta_prefix_always : forall es w m, trace_ok true true true es pinit = true ->
   prun true true es pinit = (w, Some m) -> prefix (m_cont m) (w_D w).
 Proof.
-  intros es w m Hok Hrun. pose proof (pinv_run es pinit pinv_init Hok) as H. rewrite Hrun in H.
+  intros es w m Hok Hrun. pose proof (pinv_run es pinit pinv'_init Hok) as H. rewrite Hrun in H.
+  unfold pinv' in H. cbn [fst snd] in H. rewrite <- settle_D.
   destruct H as [(HD & _) (Hhas & Hk & HSle & Hcur & Hnc)]. cbn [fst snd] in *.
-  rewrite HD. destruct (current_dec w m) as [Hc|Hc].
+  rewrite HD. destruct (current_dec (settle w) m) as [Hc|Hc].
   - destruct (Hcur Hc) as (-> & _). apply prefix_app_l, firstn_prefix.
   - eapply prefix_trans; [apply (Hnc Hc)|apply prefix_app].
 Qed.
@@ -755,10 +868,10 @@ Qed.
 Lemma prun_app : forall f1 f2 es1 es2 st, prun f1 f2 (es1 ++ es2) st = prun f1 f2 es2 (prun f1 f2 es1 st).
 Proof. intros. unfold prun. apply fold_left_app. Qed.
 
-Lemma trace_ok_app : forall f1 f2 es1 es2 st, trace_ok f1 f2 (es1 ++ es2) st = true ->
-  trace_ok f1 f2 es1 st = true /\ trace_ok f1 f2 es2 (prun f1 f2 es1 st) = true.
+Lemma trace_ok_app : forall sr f1 f2 es1 es2 st, trace_ok sr f1 f2 (es1 ++ es2) st = true ->
+  trace_ok sr f1 f2 es1 st = true /\ trace_ok sr f1 f2 es2 (prun f1 f2 es1 st) = true.
 Proof.
-  intros f1 f2 es1. induction es1 as [|e tl IH]; intros es2 st H; [auto|].
+  intros sr f1 f2 es1. induction es1 as [|e tl IH]; intros es2 st H; [auto|].
   cbn [app trace_ok] in H. apply andb_true_iff in H. destruct H as [H1 H2].
   destruct (IH _ _ H2) as [H3 H4]. cbn [trace_ok prun fold_left]. rewrite H1, H3. auto.
 Qed.
@@ -766,16 +879,20 @@ Qed.
 (* right after a replica_share() of the reader: everything of a registered peer that is visible
    (its state file and the complete records of its hills file) is in the mirror, once and in order,
    and nothing else than hills of the peer *)
-Theorem meta_share_complete : forall es w om, trace_ok true true (es ++ [RShare]) pinit = true ->
+Theorem meta_share_complete : forall es w om, trace_ok true true true (es ++ [RShare]) pinit = true ->
   prun true true (es ++ [RShare]) pinit = (w, om) -> w_reg w = true ->
   exists m, om = Some m /\ prefix (visible w) (m_cont m) /\ prefix (m_cont m) (w_D w) /\
             m_sync m = true.
 Proof.
   intros es w om Hok Hrun Hreg. rewrite prun_app in Hrun.
-  destruct (trace_ok_app _ _ _ _ _ Hok) as [Hok1 _].
-  pose proof (pinv_run es pinit pinv_init Hok1) as H.
+  destruct (trace_ok_app _ _ _ _ _ _ Hok) as [Hok1 Hok2].
+  pose proof (pinv_run es pinit pinv'_init Hok1) as H.
   destruct (prun true true es pinit) as [w' om'] eqn:E. cbn [prun fold_left pstep] in Hrun.
-  injection Hrun as <- <-. destruct H as [HW HM]. cbn [fst snd] in *.
+  injection Hrun as <- <-.
+  (* the reader exchanges only when the peer's hills file is fresh *)
+  cbn [trace_ok ev_ok fst negb orb] in Hok2. rewrite andb_true_r in Hok2.
+  unfold pinv' in H. cbn [fst snd] in H. unfold settle in H. rewrite Hok2 in H.
+  destruct H as [HW HM]. cbn [fst snd] in *.
   destruct (share_spec w' om' HW HM Hreg) as (m & Hs & Hc & Hh & Hsy & Hcont & Hp).
   exists m. split; auto. destruct HW as (HD & HF & Hv). repeat split; auto.
   - unfold visible. rewrite Hcont. apply prefix_app_l. apply firstn_prefix_le. lia.
@@ -845,24 +962,36 @@ Definition meta_w2 : list pev :=
 
 Definition cont_of (st : pstate) : list hill := match snd st with Some m => m_cont m | None => [] end.
 
-Lemma meta_old1_refuted : exists es, trace_ok false false es pinit = true /\
+Lemma meta_old1_refuted : exists es, trace_ok true false false es pinit = true /\
   prefixb (cont_of (prun false false es pinit)) (w_D (fst (prun false false es pinit))) = false.
 Proof. exists meta_w1. split; vm_compute; reflexivity. Qed.
 
-Lemma meta_old2_refuted : exists es, trace_ok true false es pinit = true /\
+Lemma meta_old2_refuted : exists es, trace_ok true true false es pinit = true /\
   prefixb (cont_of (prun true false es pinit)) (w_D (fst (prun true false es pinit))) = false.
 Proof. exists meta_w2. split; vm_compute; reflexivity. Qed.
 
 Lemma meta_witnesses_repaired :
   cont_of (prun true true meta_w1 pinit) = [H 1; H 2; H 3; H 4; H 5] /\
   cont_of (prun true true meta_w2 pinit) = [H 1; H 2; H 3; H 4; H 5] /\
-  trace_ok true true meta_w1 pinit = true /\ trace_ok true true meta_w2 pinit = true.
+  trace_ok true true true meta_w1 pinit = true /\ trace_ok true true true meta_w2 pinit = true.
 Proof. vm_compute. auto. Qed.
 
+(* the remaining hole: the reader exchanges between the two halves of the peer's state-file rewrite
+   (state file renamed, old hills file still there).  It rereads the state file, skips the old records by
+   their steps and remembers their number; once the hills file has been restarted it reads the new file from
+   that position: hills 3 and 4 are lost until the next state file *)
+Definition meta_w3 : list pev :=
+  [PSetup 0 false; PDeposit (H 1); PDeposit (H 2); PVis 2; RShare;
+   PWStateA 2; RShare; PWStateB; PDeposit (H 3); PDeposit (H 4); PDeposit (H 5); PVis 3; RShare].
+
+Lemma meta_midway_refuted : exists es, trace_ok false true true es pinit = true /\
+  prefixb (cont_of (prun true true es pinit)) (w_D (fst (prun true true es pinit))) = false.
+Proof. exists meta_w3. split; vm_compute; reflexivity. Qed.
+
 Lemma meta_prefix_both :
-  (forall es w m, trace_ok true true es pinit = true ->
+  (forall es w m, trace_ok true true true es pinit = true ->
      prun true true es pinit = (w, Some m) -> prefix (m_cont m) (w_D w)) /\
-  (forall es w om, trace_ok true true (es ++ [RShare]) pinit = true ->
+  (forall es w om, trace_ok true true true (es ++ [RShare]) pinit = true ->
      prun true true (es ++ [RShare]) pinit = (w, om) -> w_reg w = true ->
      exists m, om = Some m /\ prefix (visible w) (m_cont m) /\ prefix (m_cont m) (w_D w) /\ m_sync m = true).
 Proof. split; [exact meta_prefix_always|exact meta_share_complete]. Qed.
